@@ -128,7 +128,11 @@ impl Op {
             // tokens *containing* inv (INVariant, subINVolution, and a few other
             // pathological cases)
             let def = &parameters.definition;
-            let inverted = def.contains(" inv ") || def.ends_with(" inv");
+            // The modifier may sit anywhere in the invocation, and be spelled 'inv=true'
+            let inverted = def
+                .split_into_parameters()
+                .get("inv")
+                .is_some_and(|v| v.is_empty() || v.to_lowercase() == "true");
             let mut next_param = parameters.next(def);
             next_param.definition = macro_definition;
             return Op::op(next_param, ctx)?.handle_inversion(inverted);
